@@ -192,6 +192,13 @@ def _build(ctx, case):
         item = _mk_item(ctx.seed, k, p, ident, widx, tail)
         page = M.APage(title=[M.W("t")], top_blocks=[[item]], gap_after_head=gap)
         return page
+    if kind == "spaced":
+        # two blanks between the kind/priority prefix and the rest of the first line
+        _, k, p, ident, widx = case
+        item = _mk_item(ctx.seed, k, p, ident, widx, "single")
+        item.sep = "  "
+        other = _mk_item(ctx.seed, "-", None, "none", [1], "single")
+        return M.APage(title=[M.W("t")], top_blocks=[[item, other]])
     if kind == "rich":
         _, pi, a, b, lead = case
         k, p, ident = RICH_PREFIXES[pi]
@@ -288,6 +295,10 @@ def _cases(ctx):
         if not ctx.quick:
             for idxs in it.product(range(24), repeat=2):
                 cases.append(["multi", layout, list(idxs)])
+    for (k, p) in KP:
+        for ident in ("none", "zid", "mzid", "long"):
+            for widx in ([0], [4, 1]):
+                cases.append(["spaced", k, p, ident, widx])
     # every ordered pair of word forms as (part of) a body
     for pi in range(len(RICH_PREFIXES)):
         for a in range(len(FORMS)):
